@@ -192,12 +192,16 @@ def fail_text(rec):
 
 # ------------------------------------------------------------------------------ known findings
 
+# repaired in /repo (f705aba LIMIT with a bare OFFSET on sqlite; 148aed7 never emit `--`): if one of them comes back it is a VIOLATION
+REPAIRED = {"F27-offset-without-limit", "F03-double-minus"}
+
+
 def classify_side(rec):
     """known defect that explains why THIS side is not what the reference semantics says"""
     fid = E.classify_common(rec)
-    if fid is not None:
-        return fid
-    return classify_c06(rec)
+    if fid is None:
+        fid = classify_c06(rec)
+    return None if fid in REPAIRED else fid
 
 
 _OVER_NO_ORDER = re.compile(r"OVER \((?:PARTITION BY (?:[^()]|\([^()]*\))*?)?(?:ROWS |RANGE |\))")
@@ -258,10 +262,6 @@ def classify_c06(rec):
         return "F61-pointfree-transform-param"
     if rec["tag"] == "compile-err" and "cannot append two relations with non-matching number of columns" in txt and re.search(r"\bappend t\b", prql):
         return "F63-append-arity-wildcard"
-    if rec["tag"] == "sql-err" and 'near "OFFSET"' in txt and re.search(r"(?m)\btake \d+\.\.(?!\d)", prql) \
-            and any(not re.search(r"LIMIT -?\d+$", sql[:mo.start()]) for mo in re.finditer(r" OFFSET \d+", sql)):
-        # (the shared classifier looks at the LAST OFFSET only; with several takes the bare one can be an inner one)
-        return "F27-offset-without-limit" if rec["target"] == "sql.sqlite" else "oracle-generic-offset"
     if rec["tag"] == "sql-err" and has_let and re.search(r"\bjoin\b", prql) and re.search(r"\bsort\b", prql):
         mo = re.search(r"(?:ambiguous column name|no such column): ([A-Za-z_0-9.]+)", txt)
         tail = sql[sql.rfind("ORDER BY"):] if "ORDER BY" in sql else ""
@@ -278,7 +278,7 @@ def classify_c06(rec):
                 return "F68-let-sort-key-recomputed"
             mq = re.search(r"no such column: ([A-Za-z_0-9]+\.[A-Za-z_0-9]+)", txt)
             if mq and re.search(r"\bsort\b", prql) and re.search(r"\bjoin\b", prql) and re.search(r"ORDER BY [^()]*%s\b" % re.escape(mq.group(1)), sql):
-                return "F67-sort-column-qualified-after-join"
+                return "F38-order-by-qualified-generated-alias"
             if re.search(r"\b(?:aggregate|group)\b", prql) and re.search(r"\bsort\b", prql) and re.search(r"ORDER BY [^()]*\b%s\b" % re.escape(col), sql):
                 return "F65-sort-survives-aggregate"
         if m and re.fullmatch(r"_expr_\d+", m.group(1)) and re.search(r"\bsort\b", prql) and re.search(r"ORDER BY [^()]*\b%s\b[^()]*$" % m.group(1), sql):
@@ -292,7 +292,7 @@ def classify_c06(rec):
             # The emitted SQL is right; the engine is not.
             return "oracle-sqlite-right-join-pushdown"
         if re.search(r"(?m)^take [^\n]*\nsort [^\n]*\ntake [^\n]*\n(?:group|aggregate)", prql) and len(re.findall(r"\bLIMIT\b", sql)) <= 1:
-            return "F70-take-sort-take-merged"
+            return "F37-takes-merged-across-sort-before-group"
         if has_let and re.search(r"\bsort\b", prql) and _OVER_NO_ORDER.search(sql):
             return "F62-let-loses-window-order"
         if "UNION ALL" in sql and union_pruned(sql, lab.startswith("let2-append")):
